@@ -1479,6 +1479,13 @@ pub fn c18(ctx: &Ctx) -> PropResult {
     programs.push(("remarkable".into(), format!("{all_imports}unused <- 5\nx <- 1\nDISPLAY(x == x)\nIF (TRUE) {{\n}}\nREPEAT 0 TIMES {{\n}}\nx <- x\nDISPLAY(\"B\")\n")));
     programs.push(("remarkable".into(), "x <- 1\nDISPLAY(NOT x == 2)\nDISPLAY(NOT x != 1)\nDISPLAY(NOT x AND x)\nDISPLAY(-x == 0 - 1)\nDISPLAY(x == x == TRUE)\nIF (NOT x == 0) {\nDISPLAY(\"B\")\n}\nDISPLAY(1 + 2 * 3 - 4 / 2 MOD 3)\n".into()));
     programs.push(("ROBOT.legacy-move".into(), format!("{all_imports}rb <- ROBOT_MAP(\"e..\")\nDISPLAY(\"A\")\nDISPLAY(MOVE_FOWARD(rb))\nDISPLAY(MOVE_FOWARD(rb))\nDISPLAY(MOVE_FORWARD(rb))\nDISPLAY(\"B\")\n")));
+    // (appended, round 16) indexes with a fractional part, below and above one, in reads and writes
+    for (i, src) in crate::props6::near_integer_index_family().into_iter().enumerate() {
+        if i % 2 == 0 {
+            programs.push(("fractional-index".into(), src));
+        }
+    }
+    programs.push(("fractional-index".into(), "data <- [1, 2, 3, 4]\nlo <- 1\nhi <- 4\nDISPLAY(\"A\")\nmid <- (lo + hi) / 2\nDISPLAY(data[mid])\ndata[2.5] <- 9\nDISPLAY(data)\ns <- \"text\"\nDISPLAY(s[mid])\nDISPLAY(\"B\")\n".into()));
     // single-threaded, with the process's own descriptors 1 and 2 captured
     let mut d = Driver::spawn(&ctx.driver);
     let mut model_outs = vec![];
